@@ -6,7 +6,7 @@ The function reads the merged grouped count file (header lines, then one row per
 group) twice: the first pass sums every column (`total_counts[j] += float(fs[j + 1])`), the second writes
 `scale_factors[j] * count` per cell, with `scale_factors[j] = 1000000.0 / total` (`total` replaced by 1.0 when it is
 not positive).  Both passes stop at the first statistics line (`STAT_LINE_PREFIXES`, generated: `tpm_stop_names`) and
-skip lines starting with `#`.  The usable-reads normalisation is applied only when `self.ignore_read_groups`, i.e.
+skip the header = the first line of the file (before the repair `fix_tpm_header`: every line starting with `#`).  The usable-reads normalisation is applied only when `self.ignore_read_groups`, i.e.
 never here; zero rows are never dropped in the grouped branch.
 
 A row is (feature id, printed counts in hundredths); TPM values are exact rationals (printed with `%.6f`).
@@ -31,14 +31,20 @@ def addCols : List Rat → List Int → List Rat
 /-- `line.startswith(STAT_LINE_PREFIXES)`: the feature id is one of the statistics names (an id contains no tab) -/
 def isStatId (f : String) : Bool := tpm_stop_names.contains f
 
-/-- `line.startswith('#')` -/
+/-- `line.startswith('#')` (the header test of the tree before the repair `fix_tpm_header`) -/
 def isCommentId (f : String) : Bool := f.toList.head? == some '#'
 
 /-- the prefixes end with a tab: a line that consists of a statistics name alone (no value column) is not a statistics line -/
 def isStatRow (r : String × List Int) : Bool := isStatId r.1 && !r.2.isEmpty
 
-/-- the rows both passes look at -/
+/-- the rows both passes look at: every row up to the first statistics line.  `rows` are the lines AFTER the header,
+    which is the first line of the file (`is_header_line`, repair `fix_tpm_header`); a feature id may start with `#` -/
 def tpmInputRowsG (rows : List (String × List Int)) : List (String × List Int) :=
+  rows.takeWhile (fun r => !isStatRow r)
+
+/-- the rows the tree BEFORE the repair `fix_tpm_header` looked at: `if line.startswith('#'): continue` skipped every
+    row whose id starts with `#` -/
+def tpmInputRowsGOrig (rows : List (String × List Int)) : List (String × List Int) :=
   (rows.takeWhile (fun r => !isStatRow r)).filter (fun r => !isCommentId r.1)
 
 /-- `total_counts` after the first pass -/
